@@ -744,7 +744,7 @@ def gen_src(unit_name):
     return run_src
 
 
-GEN_SRC = {n: gen_src(n) for n in ("SrcKmpLps",)}
+GEN_SRC = {n: gen_src(n) for n in ("SrcKmpLps", "SrcShiftAndMasks", "SrcHorspoolNew")}
 
 
 # ------------------------------------------------------------------------------------------ theorem modules built here
@@ -794,7 +794,7 @@ EXTRACTORS = {
     "C03": [gen_occ],
     "C04": [gen_occ],
     # translated function bodies (tools/rs2lean.py); Thm/C08.lean imports RbV.Thm.GenSrc* and restates the theorems
-    "C08": [GEN_SRC["SrcKmpLps"]],
+    "C08": [GEN_SRC["SrcKmpLps"], GEN_SRC["SrcShiftAndMasks"], GEN_SRC["SrcHorspoolNew"]],
 }
 
 
